@@ -18,9 +18,10 @@ type jsCase struct {
 // JSCounterparts runs the soy.$$ functions of soyutils.js (the names come
 // from the real table soyjs.PrintDirectives) on the adversarial strings under
 // the same contracts.
-//   family "js"               : the call soyjs emits for {$x|d} (the directive applied to the data)
-//   family "js-lib-on-escaped": changeNewlineToBr / insertWordBreaks applied to escapeHtml(x):
-//                               must change nothing but the breaks and never split a reference
+//
+//	family "js"               : the call soyjs emits for {$x|d} (the directive applied to the data)
+//	family "js-lib-on-escaped": changeNewlineToBr / insertWordBreaks applied to escapeHtml(x):
+//	                            must change nothing but the breaks and never split a reference
 func JSCounterparts(ctx *core.Ctx) {
 	var strs []string
 	for _, s := range AdversarialStrings(ctx.Thorough()) {
